@@ -1431,6 +1431,40 @@ theorem accumulateAll_refines (ins : ν → ω) (upd : ω → ν → ω) (s : Sr
 example : tblGet ([(1, 5), (2, 7), (1, 6)].foldl (accReduce (fun a v : Nat => a * 10 + v)) []) 1 = some 56 := by
   decide
 
+/-! ### pipelines: a pull is used through its answers only, so a combinator can be fed the
+answer sequence (`trace`) of another one -/
+
+theorem aux_trace_length (step : σ → σ × Step β) (n : Nat) (s : σ) : (trace step n s).length = n := by
+  induction n generalizing s with
+  | zero => rfl
+  | succ n ih => simp [trace, ih]
+
+/-- the items of an answer sequence are what `drive` collects -/
+theorem aux_trace_items (step : σ → σ × Step β) (n : Nat) (s : σ) :
+    items (trace step n s) = drive step n s := by
+  induction n generalizing s with
+  | zero => rfl
+  | succ n ih =>
+    simp only [trace, drive]
+    rcases step s with ⟨s', (x | _ | _)⟩ <;> simp [items, ih]
+
+/-- `zip(map f a, filter p b)` — any pending placement in `a` and `b`, any (sufficient) depth of
+the answer sequences -/
+theorem pipeline_zip_map_filter (f : α → γ) (p : β → Bool) (a : Src α) (b : Src β) (n n' m : Nat)
+    (hn : a.length < n) (hn' : b.length < n') (hm : n + n' < m) :
+    drive zipStep m ⟨trace (mapStep f) n a, trace (filterStep p) n' b, none⟩ =
+      List.zip ((items a).map f) ((items b).filter p) := by
+  rw [zip_refines _ _ (by simp [aux_trace_length]; omega)]
+  simp [zipSpec, aux_trace_items, map_refines f a n hn, filter_refines p b n' hn']
+
+/-- `take k (flat_map g a)` -/
+theorem pipeline_take_flatMap (g : α → List β) (k : Nat) (a : Src α) (n m : Nat)
+    (hn : a.length + ((items a).flatMap g).length < n) (hm : n < m) :
+    drive takeStep m (trace (flatMapStep g) n (a, none), k) = ((items a).flatMap g).take k := by
+  rw [take_refines _ _ _ (by simp [aux_trace_length]; omega), aux_trace_items,
+    flatMap_refines g (a, none) n (by simpa [flatMapSpec] using hn)]
+  simp [flatMapSpec]
+
 /-! ### non-vacuity: concrete instances of the hypotheses and of the statements -/
 
 /-- a fused script with pendings between the items -/
